@@ -26,7 +26,7 @@ def run(tier):
         samples.extend(r.samples)
         return r
 
-    depth = 6 if tier == "quick" else 8
+    depth = 6 if tier == "quick" else 7
     S = 8 * N
     go(fast, [["--mode", "c14enum", "--depth", depth, "--shard", "%d/%d" % (i, S)] for i in range(S)], None, "c14enum")
     go(san, [["--mode", "c14enum", "--depth", depth - 2, "--shard", "%d/%d" % (i, N)] for i in range(N)], "rec", "c14enum(san)")
